@@ -437,7 +437,7 @@ def record_and_validate(scr, name, seed, traces, steps, dtype="float64", tags=("
     out = q.stdout
     m = re.search(r"(\d+) states generated, (\d+) distinct states found", out)
     states = int(m.group(2)) if m else 0
-    mm = re.search(r'<<\s*"MISMATCH",\s*(\d+),(.*?)>>\s*\n(?:Error|<<|\d+ states|State)', out, re.S)
+    mm = re.search(r'<<\s*"MISMATCH",\s*(\d+),(.*?)>>\s*\n(?:Error|<<|\d+ states|State|Model checking|Progress)', out, re.S)
     if mm:
         line = int(mm.group(1))
         detail = " ".join(mm.group(2).split())[:1500]
